@@ -156,6 +156,49 @@ def run_case(case, ka, T=1.0):
         if res[0] == 'hang':
             vio.append(('terminates', res[1]))
         return vio, (res[0], len(sent))
+    if kind == 'cross':
+        # a fragment left over from an EARLIER REQUEST (ended by an exception frame, a timeout or a late remainder)
+        # must not be combined with data received for the next request on the same object
+        endA, txB, same = case[4], case[5], case[6]
+        world.reset()
+        state = dict(phase='A', nA=0)
+
+        def plan(k, req, now):
+            if state['phase'] == 'A':
+                state['nA'] += 1
+                F = frame(framing, count, req, fill=0)
+                out = [(D0, ('data', F[:p]))]
+                if endA == 'exception' and framing != 'aa55':
+                    out.append((.3 * T, ('data', wire.rtu_exc_resp(0xF7, 3, 2) if framing == 'rtu' else wire.tcp_exc_resp(req[:2], 0xF7, 3, 2))))
+                elif endA == 'late-remainder':
+                    out.append((1.2 * T, ('data', F[p:])))
+                return out
+            F = frame(framing, count, req, fill=0 if same else 7)
+            kk = k - state['nA']
+            if kk == 0:
+                if txB == 'frag2':
+                    return [(D0, ('data', F[:p])), (.3 * T, ('data', F[p:]))]
+                if txB == 'rem-shaped':
+                    return [(D0, ('data', F[p:]))]
+                if txB == 'first-piece-only':
+                    return [(D0, ('data', F[:p]))]
+            return [(D0, ('data', F))]
+        peer = PlanPeer(plan)
+        loop = KLoop(peer)
+        pr = make_protocol('tcp' if framing == 'tcp' else 'udp', T, 1, ka)
+        mk = (lambda: pr.read_command(100, count)) if framing != 'aa55' else (lambda: gp.Aa55ProtocolCommand("010600", "0186"))
+        loop.run(_exec(mk(), pr))
+        state['phase'] = 'B'
+        nA = len(peer.sent)
+        st, res = loop.run(_exec(mk(), pr))
+        if st == 'hang':
+            res = ('hang', res)
+        tB = peer.sent[nA][0] if len(peer.sent) > nA else 0.0
+        reads = [(e[2], e[4]) for e in loop.kern.log if e[0] == 'rx' and e[3] == 'data' and e[2] >= tB - TOL]
+        vio += general_oracle(framing, count, res, peer.sent[nA:], reads) if len(peer.sent) > nA else []
+        if res[0] == 'hang':
+            vio.append(('terminates', res[1]))
+        return vio, (res[0], len(peer.sent) - nA)
     raise ValueError(kind)
 
 
@@ -171,6 +214,14 @@ def cases_for(framing, tier):
         for p in ps:
             for name, piece in second_pieces(framing, count, F, p, G):
                 yield ('neg', framing, count, p, name, piece)
+    for count in ([1, 2, 3, 61] if tier == 'thorough' else [1, 3]):
+        L = len(frame(framing, count, b'\0\0'))
+        ps = range(MINH[framing], L) if count <= 3 else [MINH[framing], L // 2, L - 1]
+        for p in ps:
+            for endA in ('exception', 'timeout', 'late-remainder'):
+                for txB in ('frag2', 'rem-shaped', 'first-piece-only', 'full'):
+                    for same in (True, False):
+                        yield ('cross', framing, count, p, endA, txB, same)
     lcounts = [1, 2, 3, 61] if tier == 'thorough' else [1, 3]
     for count in lcounts:
         L = len(frame(framing, count, b'\0\0'))
@@ -201,7 +252,7 @@ def job(j):
         if sample is None and case[0] == 'left':
             sample = dict(framing=framing, ka=ka, case=[c.hex() if isinstance(c, bytes) else c for c in case], outcome=o)
         for clause, cause in v:
-            sub = case[4] if case[0] in ('neg',) else (f'{case[4]}/{case[5]}' if case[0] == 'left' else case[4])
+            sub = case[4] if case[0] in ('neg',) else (f'{case[4]}/{case[5]}' if case[0] in ('left', 'cross') else case[4])
             key = f'{clause}/{framing}/ka={int(ka)}/{case[0]}:{sub}'
             vio.setdefault(key, []).append((clause, case, cause))
     out = []
